@@ -270,6 +270,38 @@ pub fn check_case(b: &[u8], op: &Value) -> Option<(String, String)> {
                 }
             }
         }
+        "write-after-fault" | "read-after-fault" => {
+            // history: a write (read) that fails after k bytes, then - on the same thread, with the same
+            // library state - a complete write of the same model into a Vec (a complete read from the slice)
+            let fk = op["fault"].as_u64().unwrap() as u8;
+            let is_write = op["op"] == "write-after-fault";
+            let r = guard(|| {
+                let (m, _) = Model::read_slice(b).map_err(|e| e.to_string())?;
+                if is_write {
+                    let mut w = FaultWriter { got: vec![], chunk: 7, fail_at: Some(k), kind: fk, fired: false };
+                    let _ = m.write(&mut w);
+                } else {
+                    let _ = Model::read(FaultReader { data: b, pos: 0, chunk: 7, fail_at: Some(k), kind: fk, fired: false });
+                }
+                let mut out = vec![];
+                m.write(&mut out).map_err(|e| format!("the write after the failed one failed too: {e}"))?;
+                let again = Model::read(&b[..]).map_err(|e| format!("the read after the failed one failed too: {e}"))?.to_vec().map_err(|e| e.to_string())?;
+                Ok::<_, String>((out, again))
+            });
+            match r {
+                Err(pn) => v("after-fault-panic", pn),
+                Ok(Err(e)) => v("after-fault", e),
+                Ok(Ok((out, again))) => {
+                    if out != b {
+                        v("after-fault", format!("after a {} that failed at byte {k} (kind {fk}), a complete write produced {} bytes that differ from to_vec ({} bytes)", if is_write { "write" } else { "read" }, out.len(), b.len()))
+                    } else if again != b {
+                        v("after-fault", format!("after a {} that failed at byte {k} (kind {fk}), a complete read gives a different model", if is_write { "write" } else { "read" }))
+                    } else {
+                        None
+                    }
+                }
+            }
+        }
         "predict" => {
             // the model read through the reader predicts like the model read from the slice, and like the reference
             let (spec, _) = ModelSpec::from_bytes(b).ok()?;
@@ -446,6 +478,31 @@ pub fn run(tier: Tier) -> ! {
     let pool = model_pool(tier);
     chk.set("models", json!(pool.len()));
     chk.set("model_sizes", json!(pool.iter().map(|(_, b)| b.len()).collect::<Vec<_>>()));
+    // histories first, SEQUENTIALLY on this thread: a failing write / read at every byte position (kinds Err and
+    // Ok(0)) followed by a complete write and read. If the library keeps state across calls, everything
+    // below would observe non-replayable mixtures, so a finding here ends the run.
+    {
+        let mut n = 0u64;
+        for (name, b) in pool.iter().filter(|(_, b)| b.len() <= 400).take(tier.pick(4, 12)) {
+            for k in 0..b.len() {
+                for fault in [0u8, 1] {
+                    for which in ["write-after-fault", "read-after-fault"] {
+                        let op = json!({"op": which, "k": k, "fault": fault});
+                        n += 1;
+                        chk.eval(1);
+                        chk.nontrivial(1);
+                        if let Some((kd, what)) = check_case(b, &op) {
+                            chk.violation(format!("{kd} model={name} op={op}"), what, json!({"model": name, "bytes": b, "op": op}));
+                        }
+                    }
+                }
+            }
+        }
+        chk.set("after_fault_histories", json!(n));
+        if chk.n_violations() > 0 {
+            chk.finish("failing write / read followed by a complete one (sequential histories); the parallel sweep was skipped because these already failed", false, &replay);
+        }
+    }
     pool.par_iter().for_each(|(name, b)| {
         // the pool itself must be well-formed for the mirror (machinery self-check)
         if ModelSpec::from_bytes(b).is_err() {
@@ -478,7 +535,7 @@ pub fn run(tier: Tier) -> ! {
     chk.sample(json!({"model": "empty", "op": {"op": "write-fault", "k": 30, "fault": 1, "chunk": 1}, "meaning": "writer takes 1 byte per call and returns Ok(0) after 30 bytes: write must fail, bytes taken must be a prefix"}));
     chk.assume("bincode's standard configuration and std::io::Read::read_exact semantics (Interrupted is retried) are trusted");
     chk.finish(
-        "per model: round trip (slice, reader, writer), 4 reader chunkings, two models back to back in one stream (3 chunkings), 4 tails, EVERY proper prefix through read_slice and read, EVERY single-byte change of the 25 header bytes, a reader and a writer failing (Err / Ok(0) / Interrupted-once / transient-Err-once) at EVERY byte position with 3 chunk sizes; non-trivial = every fault or truncation case; distinct by construction",
+        "histories (sequential): a write / read failing at EVERY byte position followed by a complete write and read of the same model; per model: round trip (slice, reader, writer), 4 reader chunkings, two models back to back in one stream (3 chunkings), 4 tails, EVERY proper prefix through read_slice and read, EVERY single-byte change of the 25 header bytes, a reader and a writer failing (Err / Ok(0) / Interrupted-once / transient-Err-once) at EVERY byte position with 3 chunk sizes; non-trivial = every fault or truncation case; distinct by construction",
         true,
         &replay,
     )
